@@ -11,7 +11,30 @@ use crate::{ensure, viol};
 use mqtt_proto::{v5, Error};
 use std::io::{self, ErrorKind};
 
-pub const KINDS: &[ErrorKind] = &[ErrorKind::ConnectionReset, ErrorKind::BrokenPipe, ErrorKind::TimedOut, ErrorKind::PermissionDenied, ErrorKind::Other];
+/// Every stable `io::ErrorKind` except the two that mean "retry" by convention (Interrupted, WouldBlock). UnexpectedEof is
+/// included: a transport may report a torn connection that way, and the decoders must hand it on as that kind.
+pub const KINDS: &[ErrorKind] = &[
+    ErrorKind::ConnectionReset,
+    ErrorKind::BrokenPipe,
+    ErrorKind::TimedOut,
+    ErrorKind::PermissionDenied,
+    ErrorKind::Other,
+    ErrorKind::UnexpectedEof,
+    ErrorKind::ConnectionAborted,
+    ErrorKind::InvalidData,
+    ErrorKind::NotConnected,
+    ErrorKind::InvalidInput,
+    ErrorKind::WriteZero,
+    ErrorKind::OutOfMemory,
+    ErrorKind::Unsupported,
+    ErrorKind::ConnectionRefused,
+    ErrorKind::NotFound,
+    ErrorKind::AddrInUse,
+    ErrorKind::AlreadyExists,
+];
+
+pub const SHAPE_LABELS: [&str; sio::ERR_SHAPES as usize] =
+    ["error-shape:message", "error-shape:bare-kind", "error-shape:nested-io-error", "error-shape:source-chain", "error-shape:os-code", "error-shape:boxed-or-empty"];
 
 fn io_kind<F: Family>(e: &F::Error) -> Option<ErrorKind> {
     match F::common(e) {
@@ -42,6 +65,8 @@ fn faults<F: Family>(p: &F::Packet, t: &mut Tape, ctx: &mut Ctx) -> CaseResult {
     pos.push(len);
     let chunky: Vec<Step> = (0..t.pick(12)).map(|_| if t.flag() { Step::Pending } else { Step::Chunk(1 + t.pick(7)) }).collect();
     let mut inside = 0u64;
+    // the payload shape of the injected error rotates independently of position and kind (17 kinds, 6 shapes)
+    let mut shape_ctr = t.pick(sio::ERR_SHAPES as usize);
     for (i, &k) in pos.iter().enumerate() {
         let kind = KINDS[(i + k) % KINDS.len()];
         let kinds: &[ErrorKind] = if i % 16 == 0 { KINDS } else { std::slice::from_ref(&kind) };
@@ -51,17 +76,23 @@ fn faults<F: Family>(p: &F::Packet, t: &mut Tape, ctx: &mut Ctx) -> CaseResult {
                     continue;
                 }
                 let steps: &[Step] = if delivery == 0 { &[] } else { &chunky };
+                shape_ctr += 1;
+                let shape = (shape_ctr % sio::ERR_SHAPES as usize) as u8;
                 // async decoder
-                let mut rd = ScriptedReader::new(&enc, steps).with_fault(k, kind);
+                let mut rd = ScriptedReader::new(&enc, steps).with_fault(k, kind).with_fault_shape(shape);
                 let (res, _) = sio::drive(F::decode_async(&mut rd), len + steps.len() + 8);
                 // poll decoder
-                let run = fam::dec_poll_scripted::<F>(&enc, steps, (k as u64).wrapping_mul(0x9E37), Some((k, kind)), false);
+                let run = fam::dec_poll_styled::<F>(&enc, steps, (k as u64).wrapping_mul(0x9E37), Some((k, kind)), false, shape << 4);
                 if k < len {
+                    // an UnexpectedEof reported by the transport is still "the same kind", which is_eof() recognises
+                    let same_kind = |e: &F::Error| io_kind::<F>(e) == Some(kind) && (kind != ErrorKind::UnexpectedEof || F::is_eof(e));
                     match &res {
-                        Err(e) if io_kind::<F>(e) == Some(kind) => {}
+                        Err(e) if same_kind(e) => {}
                         other => viol!(
-                            "async decoder with a {:?} read error injected at byte {} of {} returned {:?}; packet {}",
+                            "async decoder with a {:?} read error (payload shape {}: {:?}) injected at byte {} of {} returned {:?}; packet {}",
                             kind,
+                            shape,
+                            sio::make_err(kind, shape),
                             k,
                             len,
                             other.as_ref().map(|q| fam::render(q)),
@@ -69,16 +100,19 @@ fn faults<F: Family>(p: &F::Packet, t: &mut Tape, ctx: &mut Ctx) -> CaseResult {
                         ),
                     }
                     match &run.result {
-                        Err(e) if io_kind::<F>(e) == Some(kind) => {}
+                        Err(e) if same_kind(e) => {}
                         other => viol!(
-                            "poll decoder with a {:?} read error injected at byte {} of {} returned {:?}; packet {}",
+                            "poll decoder with a {:?} read error (payload shape {}: {:?}) injected at byte {} of {} returned {:?}; packet {}",
                             kind,
+                            shape,
+                            sio::make_err(kind, shape),
                             k,
                             len,
                             other.as_ref().map(|q| fam::render(&q.pkt)),
                             fam::render(p)
                         ),
                     }
+                    ctx.label(SHAPE_LABELS[shape as usize]);
                 } else {
                     // fault right after the packet: the packet is returned and no further read is issued
                     match &res {
@@ -105,6 +139,8 @@ fn faults<F: Family>(p: &F::Packet, t: &mut Tape, ctx: &mut Ctx) -> CaseResult {
             let wsteps: Vec<WStep> = (0..t.pick(6)).map(|_| if t.flag() { WStep::Pending } else { WStep::Accept(1 + t.pick(9)) }).collect();
             for zero in [false, true] {
                 let mut w = ScriptedWriter::new(&wsteps, len);
+                shape_ctr += 1;
+                w.fault_shape = (shape_ctr % sio::ERR_SHAPES as usize) as u8;
                 let want = if zero {
                     w.zero_at = Some(k);
                     ErrorKind::WriteZero
@@ -143,6 +179,8 @@ fn faults<F: Family>(p: &F::Packet, t: &mut Tape, ctx: &mut Ctx) -> CaseResult {
             for zero in [false, true] {
                 let ws = [WStep::Accept(3), WStep::Accept(1)];
                 let mut w = ScriptedWriter::new(&ws, blen);
+                shape_ctr += 1;
+                w.fault_shape = (shape_ctr % sio::ERR_SHAPES as usize) as u8;
                 let want = if zero {
                     w.zero_at = Some(k);
                     ErrorKind::WriteZero
@@ -214,15 +252,24 @@ fn conversions(_input: &Input, ctx: &mut Ctx) -> CaseResult {
         ErrorKind::Other,
     ];
     for k in kinds {
-        let e: Error = io::Error::new(k, "x").into();
-        ensure!(matches!(&e, Error::IoError(kk, _) if *kk == k), "From<io::Error> for Error maps kind {:?} to {:?}", k, e);
-        ensure!(e.is_eof() == (k == ErrorKind::UnexpectedEof), "Error::is_eof() is {} for kind {:?}", e.is_eof(), k);
-        let back: io::Error = e.into();
-        ensure!(back.kind() == k, "From<Error> for io::Error maps IoError({:?}) to kind {:?}", k, back.kind());
-        let e5: v5::ErrorV5 = io::Error::new(k, "x").into();
-        ensure!(matches!(&e5, v5::ErrorV5::Common(Error::IoError(kk, _)) if *kk == k), "From<io::Error> for ErrorV5 maps kind {:?} to {:?}", k, e5);
-        ensure!(e5.is_eof() == (k == ErrorKind::UnexpectedEof), "ErrorV5::is_eof() is {} for kind {:?}", e5.is_eof(), k);
-        ctx.count_distinct(1);
+        // every payload shape a transport may give the error (message, bare kind, nested io::Error of another
+        // kind, source chain leading to another io::Error, OS code, boxed / empty message)
+        for shape in 0..sio::ERR_SHAPES {
+            let shown = format!("{:?}", sio::make_err(k, shape));
+            let e: Error = sio::make_err(k, shape).into();
+            ensure!(matches!(&e, Error::IoError(kk, _) if *kk == k), "From<io::Error> for Error maps {} (kind {:?}) to {:?}", shown, k, e);
+            ensure!(e.is_eof() == (k == ErrorKind::UnexpectedEof), "Error::is_eof() is {} for {} (kind {:?})", e.is_eof(), shown, k);
+            let back: io::Error = e.into();
+            ensure!(back.kind() == k, "From<Error> for io::Error maps IoError({:?}) (from {}) to kind {:?}", k, shown, back.kind());
+            let e5: v5::ErrorV5 = sio::make_err(k, shape).into();
+            ensure!(matches!(&e5, v5::ErrorV5::Common(Error::IoError(kk, _)) if *kk == k), "From<io::Error> for ErrorV5 maps {} (kind {:?}) to {:?}", shown, k, e5);
+            ensure!(e5.is_eof() == (k == ErrorKind::UnexpectedEof), "ErrorV5::is_eof() is {} for {} (kind {:?})", e5.is_eof(), shown, k);
+            // the common error wrapped into the v5 error and unwrapped again keeps the kind as well
+            let wrapped: v5::ErrorV5 = Error::from(sio::make_err(k, shape)).into();
+            ensure!(matches!(&wrapped, v5::ErrorV5::Common(Error::IoError(kk, _)) if *kk == k), "From<Error> for ErrorV5 maps IoError({:?}) to {:?}", k, wrapped);
+            ctx.count_distinct(1);
+            ctx.label(SHAPE_LABELS[shape as usize]);
+        }
     }
     let protocol = vec![
         Error::InvalidRemainingLength,
